@@ -2,7 +2,7 @@
 From Coq Require Import List Arith ZArith NArith Bool Sorted Permutation.
 From Coq.Strings Require Import Byte.
 Import ListNotations.
-From SV Require Import Text C09_Model C09_Lemmas C09_Extract C09_Record C09_Box C09_Unterm C09_Scan C09_Parse C09_Get C09_GetAll C09_Header C09_Read C09_Store C09_Sort C09_Layout C09_Hist.
+From SV Require Import Text C09_Model C09_Lemmas C09_Extract C09_Record C09_Box C09_Unterm C09_Scan C09_Parse C09_Get C09_GetAll C09_Header C09_Read C09_Store C09_Sort C09_Layout C09_Hist C09_Agree.
 
 (* P0 (DESIGN appendix A): for every line width, newline sequence and residue string, stripping the newline bytes from the bytes
    [off i, off j) of the wrapped text, off x = x + (x / w) * |nl| (fastaindex.py:118,132), gives s[i:j] *)
@@ -459,3 +459,87 @@ Example C09_layout_witness :
   /\ Forall (fun e => no_byte SP (e_id e) = true /\ e_id e <> []) data
   /\ option_map (@length byte) (bsf_file ex_hs data) = Some (8 + length ex_hs + 14 + 3 * 7).
 Proof. exact layout_witness. Qed.
+
+(* ---------------------------------------------------------------------- histories, with ids distinct over the file set *)
+
+(* completeness: once an add call naming file k has been accepted (existing files; binary: the index is empty or force is
+   given, and with force the index file exists), every record of file k is found -- for ever after, whatever operations
+   follow (further add calls, refused ones, the same file again, reopening); with C09_hist_get_sound: and answered correctly *)
+Theorem C09_hist_get_complete : forall mode hs path (env : list (str * gfile)),
+  (mode = MODE_BINARY \/ mode = MODE_DB) -> NoDup (map fst env) ->
+  Forall (fun nf => wf_gfile mode (snd nf)) env -> Forall (fun nf => name_ok (fst nf) = true) env ->
+  wf_header mode hs path [] = true -> (N.of_nat (length env) < 65536)%N ->
+  NoDup (concat (map (fun nf => map rid (g_recs (snd nf))) env)) ->
+  forall ops1 ks force ops2 k nm f r,
+  let s1 := fst (run_ops mode hs (benv env) (init_state path) ops1) in
+  (forall k', In k' ks -> k' < length env) -> refused mode s1 force = false -> missing mode s1 force = false ->
+  In k ks -> nth_error env k = Some (nm, f) -> In r (g_recs f) ->
+  let s := fst (run_ops mode hs (benv env) (init_state path) (ops1 ++ OAdd ks force :: ops2)) in
+  exists fn ll st, lookup_entry mode s (rid r) = Ok (fn, ll, st).
+Proof. exact hist_get_complete. Qed.
+Print Assumptions C09_hist_get_complete.
+
+(* "the binary-search and dbm back ends return identical answers, also after the index is reopened": the same history run on
+   a binary index and on a dbm index (both: every add call is one the binary index accepts; reopen operations included):
+   the registered files are equal, an id is found by one back end iff it is found by the other, with the same file number,
+   line length and offset, and every query on it gets the same answer *)
+Theorem C09_hist_modes_agree : forall hs path (env : list (str * gfile)),
+  NoDup (map fst env) -> Forall (fun nf => wf_gfile MODE_DB (snd nf)) env -> Forall (fun nf => name_ok (fst nf) = true) env ->
+  wf_header MODE_BINARY hs path [] = true -> (N.of_nat (length env) < 65536)%N ->
+  NoDup (concat (map (fun nf => map rid (g_recs (snd nf))) env)) ->
+  forall sb sd id, both hs path env sb sd -> id <> [] -> id <> HEADER_KEY ->
+  st_files sb = st_files sd
+  /\ (forall x, lookup_entry MODE_BINARY sb id = Ok x <-> lookup_entry MODE_DB sd id = Ok x)
+  /\ forall q x, q_id q = id -> lookup_entry MODE_BINARY sb id = Ok x ->
+       snd (step MODE_BINARY hs (benv env) sb (OGet q)) = snd (step MODE_DB hs (benv env) sd (OGet q)).
+Proof. exact (fun hs path env H1 H2 H3 H4 H5 H6 sb sd id B N1 N2 => conj (proj1 (proj2 (proj2 (both_agree hs path env H1 H2 H3 H4 H5 H6 sb sd B)))) (hist_modes_agree hs path env H1 H2 H3 H4 H5 H6 sb sd id B N1 N2)). Qed.
+Print Assumptions C09_hist_modes_agree.
+
+(* non-vacuity of [both]: add, add with force, reopen on both back ends *)
+Example C09_both_witness :
+  both ex_hs (bs "{dbpath}/"%bs) ex_env
+       (fst (run_ops MODE_BINARY ex_hs (benv ex_env) (init_state (bs "{dbpath}/"%bs)) [OAdd [1] false; OAdd [0] true; OReopen]))
+       (fst (run_ops MODE_DB ex_hs (benv ex_env) (init_state (bs "{dbpath}/"%bs)) [OAdd [1] false; OAdd [0] true; OReopen]))
+  /\ NoDup (concat (map (fun nf => map rid (g_recs (snd nf))) ex_env)).
+Proof. exact both_witness. Qed.
+
+(* "whole-record, header-only and range queries agree; a too-large end is clipped to the record": after every history, for
+   every id the index finds, in either mode: the header-only answer is the first line of the whole-record text; that text
+   parses (FASTA reader) to exactly what get(id) returns; get(id, i, j) is the slice [i:j] of the residues get(id) returns,
+   with the same id and header; an end at or beyond the record length gives the same as an open end; (0, len) is the whole *)
+Theorem C09_hist_queries_agree : forall mode hs path (env : list (str * gfile)),
+  (mode = MODE_BINARY \/ mode = MODE_DB) -> NoDup (map fst env) ->
+  Forall (fun nf => wf_gfile mode (snd nf)) env -> Forall (fun nf => name_ok (fst nf) = true) env ->
+  wf_header mode hs path [] = true -> (N.of_nat (length env) < 65536)%N ->
+  forall ops id fn ll st,
+  let s := fst (run_ops mode hs (benv env) (init_state path) ops) in
+  id <> [] -> id <> HEADER_KEY -> lookup_entry mode s id = Ok (fn, ll, st) ->
+  exists hline rest h d,
+    (forall rng, snd (step mode hs (benv env) s (OGet (Query 2 id rng))) = VS hline)
+    /\ snd (step mode hs (benv env) s (OGet (Query 1 id None))) = VS (hline ++ rest)
+    /\ parse_get (hline ++ rest) = Ok (Some id, h, d)
+    /\ snd (step mode hs (benv env) s (OGet (Query 0 id None))) = VL [VS id; VS h; VS d]
+    /\ (forall oi oj : option nat,
+         (match oi, oj with Some i, Some j => i <= j | None, None => False | _, _ => True end) ->
+         snd (step mode hs (benv env) s (OGet (Query 0 id (Some (option_map Z.of_nat oi, option_map Z.of_nat oj)))))
+         = VL [VS id; VS h; VS (sl d oi oj)])
+    /\ (forall oi j, length d <= j -> sl d oi (Some j) = sl d oi None)
+    /\ sl d (Some 0) (Some (length d)) = d.
+Proof. exact hist_queries_agree. Qed.
+Print Assumptions C09_hist_queries_agree.
+
+(* len(FastaIndex): after every history both back ends accept (with at least one accepted add call), the dbm index reports
+   the number of distinct records it holds (Ld duplicate-free), the binary index the number of records in its file; both
+   hold the same records, so the two numbers are equal whenever the binary file holds no record twice (no file added again) *)
+Theorem C09_hist_len : forall hs path (env : list (str * gfile)),
+  NoDup (map fst env) -> Forall (fun nf => wf_gfile MODE_DB (snd nf)) env -> Forall (fun nf => name_ok (fst nf) = true) env ->
+  wf_header MODE_BINARY hs path [] = true -> (N.of_nat (length env) < 65536)%N ->
+  NoDup (concat (map (fun nf => map rid (g_recs (snd nf))) env)) ->
+  forall sb sd, both hs path env sb sd -> st_db sd <> [] ->
+  exists Lb Ld,
+    snd (step MODE_BINARY hs (benv env) sb OLen) = VI (Z.of_nat (length Lb))
+    /\ snd (step MODE_DB hs (benv env) sd OLen) = VI (Z.of_nat (length Ld))
+    /\ (forall e, In e Lb <-> has MODE_BINARY sb e) /\ (forall e, In e Ld <-> has MODE_DB sd e) /\ NoDup Ld
+    /\ (forall e, In e Lb <-> In e Ld) /\ (NoDup Lb -> length Lb = length Ld).
+Proof. exact hist_len. Qed.
+Print Assumptions C09_hist_len.
